@@ -20,7 +20,7 @@ func main() {
 	} else if f.Thorough() {
 		segWatch.full, segWatch.every, timeWatch.full, timeWatch.every = 20000, 2, 20000, 8
 	} else {
-		segWatch.full, segWatch.every, timeWatch.full, timeWatch.every = 8000, 4, 2000, 32
+		segWatch.full, segWatch.every, timeWatch.full, timeWatch.every = 4000, 8, 2000, 32
 	}
 	drv, err := lib.StartDriver(f.Driver)
 	if err != nil {
